@@ -35,6 +35,16 @@ std::vector<Entry> catalogue() {
     add("Block::createSource/empty-type", [](World &w) { Block b = w.b0; return Call([b]() mutable { b.createSource("fresh-source", ""); }); });
     add("Source::createSource/duplicate-name", [](World &w) { Source s; NEED(w.g.anySource(w.b0, s)); NEED(s.sourceCount()); std::string n = s.getSource(0).name(); return Call([s, n]() mutable { s.createSource(n, "t2"); }); });
     add("Block::createDataArray/duplicate-name", [](World &w) { Block b = w.b0; NEED(b.dataArrayCount()); std::string n = b.getDataArray(w.g.r.u(b.dataArrayCount())).name(); return Call([b, n]() mutable { b.createDataArray(n, "t2", DataType::Int32, NDSize{7}); }); });
+    // duplicates of hostile names (UUID-shaped, '..', whitespace, long): the entity is created during preparation if necessary
+    add("Block::createDataArray/duplicate-hostile-name", [](World &w) { Block b = w.b0; std::string n = gen_name(w.g.r, 0, 100); if (!b.hasDataArray(n)) b.createDataArray(n, "t", DataType::Double, NDSize{2}); return Call([b, n]() mutable { b.createDataArray(n, "t2", DataType::Int32, NDSize{5}); }); });
+    add("Block::createTag/duplicate-hostile-name", [](World &w) { Block b = w.b0; std::string n = gen_name(w.g.r, 0, 100); if (!b.hasTag(n)) b.createTag(n, "t", {1.0}); return Call([b, n]() mutable { b.createTag(n, "t2", {2.0, 3.0}); }); });
+    add("Block::createSource/duplicate-hostile-name", [](World &w) { Block b = w.b0; std::string n = gen_name(w.g.r, 0, 100); if (!b.hasSource(n)) b.createSource(n, "t"); return Call([b, n]() mutable { b.createSource(n, "t2"); }); });
+    add("Block::createGroup/duplicate-hostile-name", [](World &w) { Block b = w.b0; std::string n = gen_name(w.g.r, 0, 100); if (!b.hasGroup(n)) b.createGroup(n, "t"); return Call([b, n]() mutable { b.createGroup(n, "t2"); }); });
+    add("Block::createDataFrame/duplicate-hostile-name", [](World &w) { Block b = w.b0; std::string n = gen_name(w.g.r, 0, 100); if (!b.hasDataFrame(n)) b.createDataFrame(n, "t", {{"c", "", DataType::Double}}); return Call([b, n]() mutable { b.createDataFrame(n, "t2", {{"d", "", DataType::Int32}}); }); });
+    add("Block::createMultiTag/duplicate-hostile-name", [](World &w) { Block b = w.b0; NEED(b.dataArrayCount()); DataArray a = b.getDataArray(0); std::string n = gen_name(w.g.r, 0, 100); if (!b.hasMultiTag(n)) b.createMultiTag(n, "t", a); return Call([b, n, a]() mutable { b.createMultiTag(n, "t2", a); }); });
+    add("File::createBlock/duplicate-hostile-name", [](World &w) { File f = w.g.f; std::string n = gen_name(w.g.r, 0, 100); if (!f.hasBlock(n)) f.createBlock(n, "t"); return Call([f, n]() mutable { f.createBlock(n, "t2"); }); });
+    add("File::createSection/duplicate-hostile-name", [](World &w) { File f = w.g.f; std::string n = gen_name(w.g.r, 0, 100); if (!f.hasSection(n)) f.createSection(n, "t"); return Call([f, n]() mutable { f.createSection(n, "t2"); }); });
+    add("Section::createProperty/duplicate-hostile-name", [](World &w) { Section s; NEED(w.g.anySection(s)); std::string n = gen_name(w.g.r, 0, 100); if (!s.hasProperty(n)) s.createProperty(n, Variant(1.0)); return Call([s, n]() mutable { s.createProperty(n, Variant("other")); }); });
     add("Block::createDataArray/empty-type", [](World &w) { Block b = w.b0; return Call([b]() mutable { b.createDataArray("fresh-array", "", DataType::Double, NDSize{2}); }); });
     add("Block::createDataArray/slash-name", [](World &w) { Block b = w.b0; return Call([b]() mutable { b.createDataArray("a/b", "t", DataType::Double, NDSize{2}); }); });
     add("Block::createDataArray/unsupported-element-type-Nothing", [](World &w) { Block b = w.b0; return Call([b]() mutable { b.createDataArray("fresh-nothing", "t", DataType::Nothing, NDSize{2}); }); });
@@ -83,7 +93,8 @@ std::vector<Entry> catalogue() {
     add("Section::link/section-of-other-file", [](World &w) { Section s; NEED(w.g.anySection(s)); Section o = w.other.getSection(0); return Call([s, o]() mutable { s.link(o); }); });
     // ------------------------------------------------------------------ shapes, element types, indices
     add("DataArray::appendData/shape-mismatch", [](World &w) { DataArray a; NEED(w.g.anyArray(w.b0, a)); NEED(a.dataType() == DataType::Double); NDSize e = a.dataExtent(); NEED(e.size() >= 2); NDSize c = e; c[0] = 1; c[1] += 1; auto buf = std::make_shared<std::vector<double>>(c.nelms(), 1.0); return Call([a, c, buf]() mutable { a.appendData(DataType::Double, buf->data(), c, 0); }); });
-    add("DataArray::appendData/refactored-slice-same-size", [](World &w) { DataArray a; NEED(w.g.anyArray(w.b0, a)); NEED(a.dataType() == DataType::Double); NDSize e = a.dataExtent(); NEED(e.size() == 3 && e[1] != e[2]); NDSize c = e; c[0] = 1; std::swap(c[1], c[2]); auto buf = std::make_shared<std::vector<double>>(c.nelms(), 1.0); return Call([a, c, buf]() mutable { a.appendData(DataType::Double, buf->data(), c, 0); }); });
+    add("DataArray::appendData/refactored-slice-same-size", [](World &w) { DataArray a = w.b0.createDataArray("r3-" + str(w.g.serial++), "t", DataType::Double, NDSize{2, 4, 3}); NDSize e = a.dataExtent(); NDSize c = e; c[0] = 1; std::swap(c[1], c[2]); auto buf = std::make_shared<std::vector<double>>(c.nelms(), 1.0); return Call([a, c, buf]() mutable { a.appendData(DataType::Double, buf->data(), c, 0); }); });
+    add("DataArray::appendData/same-count-other-shape-2d", [](World &w) { DataArray a = w.b0.createDataArray("r2-" + str(w.g.serial++), "t", DataType::Double, NDSize{2, 6}); NDSize c{3, 4}; auto buf = std::make_shared<std::vector<double>>(12, 1.0); return Call([a, c, buf]() mutable { a.appendData(DataType::Double, buf->data(), c, 0); }); });
     add("DataArray::appendData/rank-mismatch", [](World &w) { DataArray a; NEED(w.g.anyArray(w.b0, a)); NEED(a.dataType() == DataType::Double); NDSize e = a.dataExtent(); NDSize c(e.size() + 1, 1); auto buf = std::make_shared<std::vector<double>>(1, 1.0); return Call([a, c, buf]() mutable { a.appendData(DataType::Double, buf->data(), c, 0); }); });
     add("DataArray::appendData/axis-out-of-range", [](World &w) { DataArray a; NEED(w.g.anyArray(w.b0, a)); NEED(a.dataType() == DataType::Double); NDSize e = a.dataExtent(); auto buf = std::make_shared<std::vector<double>>(e.nelms() + 1, 1.0); size_t ax = e.size(); return Call([a, e, buf, ax]() mutable { a.appendData(DataType::Double, buf->data(), e, ax); }); });
     add("DataArray::setData/beyond-extent", [](World &w) { DataArray a; NEED(w.g.anyArray(w.b0, a)); NEED(a.dataType() == DataType::Double); NDSize e = a.dataExtent(); NDSize off(e.size(), 0); off[0] = e[0]; NDSize c(e.size(), 1); auto buf = std::make_shared<std::vector<double>>(1, 3.0); return Call([a, c, off, buf]() mutable { a.setData(DataType::Double, buf->data(), c, off); }); });
